@@ -1297,6 +1297,12 @@ func (c *Canonicalizer) funcRefName(f *ssa.Function) string {
 		if cur == f {
 			return "$self"
 		}
+		// A function of another package is named with its package (and receiver), so that
+		// functions that merely share a name and a signature (path.Join / filepath.Join,
+		// utf8.RuneLen / utf16.RuneLen) do not render alike.
+		if cur != nil && f.Pkg != nil && f.Pkg != cur.Pkg {
+			return f.String()
+		}
 		return f.Name()
 	}
 	return "$self" + strings.TrimPrefix(f.Name(), root.Name())
